@@ -157,6 +157,35 @@ Theorem C05_plan_nodes : forall dcf rackf (g : ring N) keyspaces enabled connect
   end.
 Proof. exact plan_nodes. Qed.
 
+(* ---- node liveness changing between pick() and fallback() (the two reads of one Plan) ----
+   what still holds: the first target is an acceptable pick for the liveness pick() saw, the rest
+   is the (accepted) fallback plan of the later liveness minus at most the picked target; every
+   node was enabled when it was chosen and is permitted (host filter, locality); the rest names
+   no node twice *)
+Theorem C05_two_reads_safe : forall dcf rackf (g : ring N) keyspaces en1 co1 en2 co2 shf pol rq,
+  sorted_weak g ->
+  (forall k s, ks_lookup keyspaces k = Some s -> nts_keys_ok s) ->
+  forall cho shuf, (forall site l, Permutation (shuf site l) l) ->
+  (forall site len, (0 < len)%nat -> (cho site len < len)%nat) ->
+  forall p tl,
+  plan_two_reads dcf rackf g keyspaces en1 co1 en2 co2 shf pol rq cho shuf = Some (p :: tl) ->
+  pick_matches dcf rackf g keyspaces en1 co1 pol rq (Some (fst p)) = true /\
+  plan_matches dcf rackf g keyspaces en2 co2 pol rq
+    (map fst (fallback dcf rackf g keyspaces en2 co2 shf pol rq cho shuf)) = true /\
+  (en1 (fst p) = true /\ permitted dcf g pol rq (fst p) = true) /\
+  (forall n, In n (map fst tl) -> en2 n = true /\ permitted dcf g pol rq n = true) /\
+  NoDup (map fst tl).
+Proof. exact two_reads_safe. Qed.
+
+(* what does NOT survive: the picked replica, down by the time fallback() runs, reappears as a
+   shard-less "maybe down" target that the exact-equality filter of Plan does not remove — the
+   plan names node 1 twice and is ordered / complete for neither snapshot *)
+Theorem C05_two_reads_refuted :
+  exists p, tw_plan = Some p /\ map fst p = [1; 2; 1]%N /\ ~ NoDup (map fst p) /\
+    plan_matches (fun _ => None) (fun _ => None) tw_g tw_ks tw_up tw_up tw_pol tw_rq (map fst p) = false /\
+    plan_matches (fun _ => None) (fun _ => None) tw_g tw_ks tw_up tw_co2 tw_pol tw_rq (map fst p) = false.
+Proof. exact two_reads_refuted. Qed.
+
 (* ---- non-vacuity: the 7-node, 2-datacenter ring of the repository's own tests -----------
    nodes A..G = 1..7; eu = 1, us = 2; racks r1 = 1, r2 = 2; keyspace 0 = NTS {eu:3, us:3} *)
 Definition ex_dcf (n : N) : option N :=
@@ -228,3 +257,5 @@ Print Assumptions C05_plan_accepted.
 Print Assumptions C05_plan_properties.
 Print Assumptions C05_lwt.
 Print Assumptions C05_plan_nodes.
+Print Assumptions C05_two_reads_safe.
+Print Assumptions C05_two_reads_refuted.
